@@ -5,6 +5,7 @@ import (
 	"sort"
 	"go/constant"
 	"go/token"
+	"go/types"
 	"strings"
 
 	"golang.org/x/tools/go/ssa"
@@ -17,6 +18,7 @@ func checkC07(c *Check) {
 	c.Explanation = "Trailing-delimiter taint: the string the pipe ingester hands to its callback is the result of bufio.Reader.ReadString(delim), which keeps the delimiter. The taint 'may end with the delimiter' is propagated forward through call edges (including the callback and interface dispatch), strings functions that keep the tail, struct fields, variable cells and the string channel to the audit processor; it must be removed by a sanitiser (TrimSuffix/TrimRight/Trim with the delimiter, TrimSpace, x[:len(x)-1], or the space-trimming auparse.ParseLogLine) before it reaches an intolerant sink: a pattern whose `$` cannot absorb the delimiter, an equality/length comparison of the record text, a numeric conversion, or an event field. Second rule: the message handed to the sshd processor derives from the record only through operations that keep internal spacing. Necessary and, given the sink table, sufficient for the framing clause."
 	c.Rule("no-delimiter-at-intolerant-sink (sources: ReadString/ReadBytes results in ingesters/namedpipe; floor: >=1 source, >=2 sanitisers met: one per pipeline)")
 	c.Rule("framing-primitive: records are read with the accumulating ReadString/ReadBytes (ReadSlice/ReadLine/Scanner are bounded by the buffer size)")
+	c.Rule("audit-record-handed-on: the audit pipeline's callback sends the record it was given into the audit-line channel; the only alternative is cancellation (Done()), and it cannot return without having passed the hand-over")
 	c.Rule("spacing-preserved: SshdLogEntry.Message <- record via {TrimSuffix/TrimLeft/TrimPrefix/TrimRight, Split/SplitN/Cut + Join on one separator constant, slicing}; PID <- element 0 of the same split")
 	c.Trust("bufio.Reader.ReadString returns the data up to and including the delimiter", "auparse.ParseLogLine -> Parse trims surrounding white space (go-libaudit auparse.go)", "regexp: $ without (?m) is end-of-text; . and \\S exclude newline")
 	// delimiter constants passed to the ingester
@@ -123,6 +125,8 @@ func checkC07(c *Check) {
 
 	// Rule 2: spacing preserved
 	spacingRule(c)
+	// Rule 2b: the audit pipeline's callback hands every record on
+	auditRecordHandedOn(c)
 	// Rule 3: the record reaching the callback is the record as written
 	// (framing loop of the pipe ingester; rules of C12)
 	nr := importRules(c, "C12", checkC12, "record-as-written: ", "once-verbatim-in-order", "framing-primitive", "reader-outlives-loop")
@@ -303,4 +307,92 @@ func spacingChain(r *Resolver, v ssa.Value, wantFirst bool, seps map[string]bool
 		return false, "message passes through " + sc.String() + ", which is not known to keep internal spacing"
 	}
 	return false, "derivation through " + v.String() + " not understood"
+}
+
+
+// auditRecordHandedOn: the callback of the audit pipeline (a function of
+// ingesters/auditlog with a string parameter that is sent on a channel)
+// delivers every record: the send is bare, or sits in a blocking select
+// whose other cases only wait for cancellation, and no path through the
+// function avoids it. A record given up for another reason (a timer, a
+// default case, a full channel) is lost silently; handed over directly it
+// would have been processed.
+func auditRecordHandedOn(c *Check) {
+	p := c.P
+	n := 0
+	for _, fn := range p.AllRepoFuncs() {
+		if FuncPkgPath(fn) != ModPath+"/ingesters/auditlog" || fn.Blocks == nil || !p.InDaemon(fn) {
+			continue
+		}
+		var lineP []*ssa.Parameter
+		for _, prm := range fn.Params {
+			if b, ok := prm.Type().Underlying().(*types.Basic); ok && b.Kind() == types.String {
+				lineP = append(lineP, prm)
+			}
+		}
+		if len(lineP) == 0 {
+			continue
+		}
+		isLine := func(v ssa.Value) bool {
+			for _, lp := range lineP {
+				if strip(v) == ssa.Value(lp) {
+					return true
+				}
+			}
+			return false
+		}
+		var hos []ssa.Instruction
+		allInstrs(fn, func(in ssa.Instruction) {
+			switch x := in.(type) {
+			case *ssa.Send:
+				if isLine(x.X) {
+					hos = append(hos, in)
+				}
+			case *ssa.Select:
+				for _, st := range x.States {
+					if st.Dir == types.SendOnly && isLine(st.Send) {
+						hos = append(hos, in)
+					}
+				}
+			}
+		})
+		if len(hos) == 0 {
+			continue
+		}
+		c.Fn(funcDisplayName(fn))
+		for _, h := range hos {
+			n++
+			name := "hand-over of the record in " + fn.Name()
+			if sel, ok := h.(*ssa.Select); ok {
+				nother := 0
+				for _, st := range sel.States {
+					if st.Dir == types.SendOnly {
+						continue
+					}
+					if doneRecvOf(st.Chan) == nil {
+						nother++
+					}
+				}
+				c.Cond(nother == 0 && sel.Blocking, "audit-record-handed-on", name, p.InstrPos(h), "the select waits for the hand-over or Done() and nothing else", "the hand-over can be abandoned for a reason other than cancellation (a timer, another channel, a default case): the record is dropped silently while later records still flow, so an audit event loses a record that the same stream handed over directly would have kept")
+			} else {
+				c.OK("audit-record-handed-on", name, p.InstrPos(h), "plain send")
+			}
+			c.Cond(!inLoop(h), "audit-record-handed-on", name+": once", p.InstrPos(h), "not in a loop", "the record can be sent more than once")
+		}
+		isHO := func(in ssa.Instruction) bool {
+			for _, h := range hos {
+				if in == h {
+					return true
+				}
+			}
+			return false
+		}
+		skip := searchAvoiding(fn, nil, isReturn, isHO)
+		pos := p.Pos(fn.Pos())
+		if skip != nil {
+			pos = p.InstrPos(skip)
+		}
+		c.Cond(skip == nil, "audit-record-handed-on", "paths through "+fn.Name(), pos, "every path from the entry to a return passes the hand-over", "the callback can return without having tried to hand the record on")
+	}
+	c.Floor("hand-overs of audit records in ingesters/auditlog", 1, n)
 }
